@@ -74,6 +74,45 @@ theorem foldl_insert_spec : ∀ (ps : List (Nat × Nat)) (l : List Nat) (n : Nat
       simp only [List.length_cons] at hl
       omega
 
+/-- under the same hypotheses every insertion has room: the list grows by one per pair, keeps its elements and gains
+every inserted source -/
+theorem foldl_insert_length_mem : ∀ (ps : List (Nat × Nat)) (l : List Nat) (n : Nat),
+    (ps.map (·.1)).Pairwise (· < ·) → (∀ p ∈ ps, p.1 < n) → l.length + ps.length = n →
+    (ps.foldl (fun order q => order.insertIdx q.1 q.2) l).length = n ∧
+    ∀ a, a ∈ ps.foldl (fun order q => order.insertIdx q.1 q.2) l ↔ (a ∈ l ∨ ∃ p ∈ ps, p.2 = a)
+  | [], l, n, _, _, hl => by simpa using hl
+  | q :: qs, l, n, hs, hr, hl => by
+    have hs' : (qs.map (·.1)).Pairwise (· < ·) := List.Pairwise.of_cons (by simpa using hs)
+    have hgt : ∀ r ∈ qs, q.1 < r.1 := by
+      intro r hr'
+      have := List.rel_of_pairwise_cons (by simpa using hs) (List.mem_map_of_mem (f := (·.1)) hr')
+      simpa using this
+    have hroom : q.1 ≤ l.length := by
+      have := length_of_increasing (qs.map (·.1)) q.1 n hs' (by
+        intro x hx
+        obtain ⟨r, hr', rfl⟩ := List.mem_map.1 hx
+        exact ⟨hgt r hr', hr r (by simp [hr'])⟩)
+      have hq := hr q (by simp)
+      simp only [List.length_map, List.length_cons] at this hl
+      omega
+    have ih := foldl_insert_length_mem qs (l.insertIdx q.1 q.2) n hs' (fun r hr' => hr r (by simp [hr'])) (by
+      rw [List.length_insertIdx_of_le_length hroom]
+      simp only [List.length_cons] at hl
+      omega)
+    rw [List.foldl_cons]
+    refine ⟨ih.1, fun a => ?_⟩
+    rw [ih.2 a, List.mem_insertIdx hroom]
+    constructor
+    · rintro ((rfl | h) | ⟨p, hp, rfl⟩)
+      · exact Or.inr ⟨q, by simp, rfl⟩
+      · exact Or.inl h
+      · exact Or.inr ⟨p, by simp [hp], rfl⟩
+    · rintro (h | ⟨p, hp, rfl⟩)
+      · exact Or.inl (Or.inr h)
+      · rcases List.mem_cons.1 hp with rfl | hp
+        · exact Or.inl (Or.inl rfl)
+        · exact Or.inr ⟨p, hp, rfl⟩
+
 /-- the axes that are not moved: as many as there are axes minus the moved ones -/
 theorem length_rest (n : Nat) (src : List Nat) (hs : src.Nodup) (hr : ∀ a ∈ src, a < n) :
     ((List.range n).filter fun a => !src.contains a).length + src.length = n := by
@@ -114,5 +153,59 @@ theorem moveaxisSeqPerm_puts_sources (n : Nat) (src dst : List Nat) (hlen : src.
     exact hdr q.1 (List.of_mem_zip hq').1
   · rw [hperm.length_eq, List.length_zip, ← hlen, Nat.min_self]
     exact length_rest n src hs hsr
+
+/-- ... and the order is a permutation of the axes, so the transpose exists: for duplicate-free in-range sequences of equal
+length `numpy.moveaxis` never raises -/
+theorem moveaxisSeqPerm_isPerm (n : Nat) (src dst : List Nat) (hlen : src.length = dst.length)
+    (hs : src.Nodup) (hd : dst.Nodup) (hsr : ∀ a ∈ src, a < n) (hdr : ∀ a ∈ dst, a < n) :
+    isPerm n (moveaxisSeqPerm n src dst) = true := by
+  unfold moveaxisSeqPerm sortPairs
+  set le : Nat × Nat → Nat × Nat → Bool := fun a b => decide (a.1 ≤ b.1) with hle
+  have hperm := perm_isort le (List.zip dst src)
+  have hfst : ((List.zip dst src).map (·.1)) = dst := List.map_fst_zip (by omega)
+  have hsnd : ((List.zip dst src).map (·.2)) = src := List.map_snd_zip (by omega)
+  have hnd : ((isort le (List.zip dst src)).map (·.1)).Nodup := by
+    have hd' : ((List.zip dst src).map (·.1)).Nodup := by rw [hfst]; exact hd
+    exact (hperm.map (·.1)).nodup_iff.2 hd'
+  have hsorted : ((isort le (List.zip dst src)).map (·.1)).Pairwise (· < ·) := by
+    have h1 : (isort le (List.zip dst src)).Pairwise (fun a b => le a b = true) :=
+      pairwise_isort le (fun a b c h1 h2 => by simp only [hle, decide_eq_true_eq] at *; omega)
+        (fun a b => by simp only [hle, Bool.or_eq_true, decide_eq_true_eq]; omega) _
+    have h2 : ((isort le (List.zip dst src)).map (·.1)).Pairwise (· ≤ ·) := by
+      rw [List.pairwise_map]
+      exact h1.imp (by intro a b h; simpa [hle] using h)
+    exact (h2.and hnd).imp (by intro a b h; omega)
+  obtain ⟨hl, hm⟩ := foldl_insert_length_mem (isort le (List.zip dst src))
+    ((List.range n).filter fun a => !src.contains a) n hsorted
+    (fun q hq => hdr q.1 (List.of_mem_zip ((mem_isort le _ q).1 hq)).1)
+    (by rw [hperm.length_eq, List.length_zip, ← hlen, Nat.min_self]; exact length_rest n src hs hsr)
+  simp only [isPerm, Bool.and_eq_true, beq_iff_eq, List.all_eq_true, List.mem_range, List.contains_iff_mem]
+  refine ⟨hl, fun a ha => (hm a).2 ?_⟩
+  by_cases hin : a ∈ src
+  · right
+    have : a ∈ (List.zip dst src).map (·.2) := by rw [hsnd]; exact hin
+    obtain ⟨p, hp, rfl⟩ := List.mem_map.1 this
+    exact ⟨p, (mem_isort le _ p).2 hp, rfl⟩
+  · left
+    simp only [List.mem_filter, List.mem_range, Bool.not_eq_true', List.contains_eq_mem, decide_eq_false_iff_not]
+    exact ⟨ha, hin⟩
+
+theorem distinctB_iff_nodup : ∀ l : List Nat, distinctB l = true ↔ l.Nodup
+  | [] => by simp [distinctB]
+  | x :: xs => by simp [distinctB, distinctB_iff_nodup xs, List.contains_iff_mem]
+
+/-- `numpy.moveaxis` with duplicate-free in-range sequences of equal length succeeds -/
+theorem moveaxisSeqF_isSome (shape src dst : List Nat) (hlen : src.length = dst.length)
+    (hs : src.Nodup) (hd : dst.Nodup) (hsr : ∀ a ∈ src, a < shape.length) (hdr : ∀ a ∈ dst, a < shape.length) :
+    ∃ out idx, moveaxisSeqF shape src dst = some (out, idx) := by
+  unfold moveaxisSeqF
+  have hg : (src.length == dst.length && distinctB src && distinctB dst && src.all (· < shape.length) &&
+      dst.all (· < shape.length)) = true := by
+    simp only [Bool.and_eq_true, beq_iff_eq, List.all_eq_true, decide_eq_true_eq]
+    exact ⟨⟨⟨⟨hlen, (distinctB_iff_nodup src).2 hs⟩, (distinctB_iff_nodup dst).2 hd⟩, hsr⟩, hdr⟩
+  rw [if_pos hg]
+  unfold transposeF
+  rw [if_pos (moveaxisSeqPerm_isPerm shape.length src dst hlen hs hd hsr hdr)]
+  exact ⟨_, _, rfl⟩
 
 end Np.ShapeFns
